@@ -58,7 +58,8 @@ type declFrame struct {
 // obligation that a write to addr (value type t) stays inside that frame.
 func (f *frame) checkWrite(b *ssa.BasicBlock, addr string, t types.Type, in string, pos token.Pos, what string) {
 	vc := f.vc
-	for li, df := range f.declFrames {
+	for _, li := range f.sortedDeclLoops() {
+		df := f.declFrames[li]
 		if !li.blocks[b] {
 			continue
 		}
@@ -83,7 +84,8 @@ func (f *frame) checkWrite(b *ssa.BasicBlock, addr string, t types.Type, in stri
 // checkCallFrame: a callee's frame must be inside every enclosing declared loop frame.
 func (f *frame) checkCallFrame(b *ssa.BasicBlock, calleePats []modPat, preTop string, in string, pos token.Pos, what string) {
 	vc := f.vc
-	for li, df := range f.declFrames {
+	for _, li := range f.sortedDeclLoops() {
+		df := f.declFrames[li]
 		if !li.blocks[b] {
 			continue
 		}
@@ -206,8 +208,9 @@ func (vc *VC) globalLoc(g *ssa.Global) string {
 	if n, ok := vc.strs[k]; ok {
 		return n
 	}
-	id := -(len(vc.strs) + 1000)
-	n := fmt.Sprintf("(L (- %d) PNil)", -id)
+	// globals and functions are pre-existing objects: ids 1000.. (top_0 >= 1000000)
+	id := len(vc.strs) + 1000
+	n := fmt.Sprintf("(L %d PNil)", id)
 	vc.strs[k] = n
 	return n
 }
@@ -218,7 +221,7 @@ func (vc *VC) funcLoc(fn *ssa.Function) string {
 		return n
 	}
 	id := len(vc.strs) + 1000
-	n := fmt.Sprintf("(L (- %d) PNil)", id)
+	n := fmt.Sprintf("(L %d PNil)", id)
 	vc.strs[k] = n
 	return n
 }
@@ -306,7 +309,14 @@ func (f *frame) run(st0 *State) {
 				vc.unsupported("loop header is the entry block in %s", FuncName(f.fn))
 			}
 			pre := st
-			st = f.havocLoop(li, pre, in)
+			entryIdx := -1
+			if len(incs) > 0 {
+				entryIdx = incs[0].idx
+			}
+			if len(incs) > 1 && li.spec != nil && li.spec.HasAssign {
+				vc.unsupported("loop %d of %s has several entry edges; loop-level assigns needs a single preheader", li.ordinal, FuncName(f.fn))
+			}
+			st = f.havocLoop(li, pre, in, entryIdx)
 			// phis become fresh
 			for _, ins := range b.Instrs {
 				phi, ok := ins.(*ssa.Phi)
@@ -483,14 +493,14 @@ func (f *frame) checkInvariants(li *loopInfo, h *ssa.BasicBlock, predIdx int, gu
 }
 
 // havocLoop produces the state at an arbitrary iteration of the loop.
-func (f *frame) havocLoop(li *loopInfo, pre *State, guard string) *State {
+func (f *frame) havocLoop(li *loopInfo, pre *State, guard string, entryIdx int) *State {
 	vc := f.vc
 	var pats []modPat
 	if li.spec != nil && li.spec.HasAssign && f.top {
 		// declared loop frame: evaluated in the state before the loop; every
 		// write inside the loop is checked against it (execInstr)
-		env := f.loopEnv(li, li.header, -1, pre)
-		env.lookup = func(name string) (Val, bool) { return f.lookupVar(name, li.header, pre) }
+		// names denote the values flowing into the loop (entry-edge phi operands)
+		env := f.loopEnv(li, li.header, entryIdx, pre)
 		pats = vc.assignPats(env, li.spec.Assigns)
 		if f.declFrames == nil {
 			f.declFrames = map[*loopInfo]*declFrame{}
